@@ -638,7 +638,10 @@ func castArr(opts *options, v value) ([]value, Error) {
 		return sub.c.fields.array(), nil
 	}
 	if ref, ok := v.(*cfgDynamic); ok {
+		// the reference is only under evaluation while it is resolved here
+		leave := opts.enterReference()
 		unrefed, err := ref.getValue(opts)
+		leave()
 		if err != nil {
 			return nil, raiseMissingMsg(ref.ctx.getParent(), ref.ctx.field, err.Error())
 		}
